@@ -1,0 +1,72 @@
+//! Types for the verification hooks of [`Framework`](crate::Framework), only
+//! compiled with the `verif` feature.
+
+use crate::event::Event;
+
+/// The message of the panic raised when a call exceeds its step budget.
+pub const BUDGET_PANIC: &str = "verif: step budget exceeded";
+
+pub(crate) fn push(log: &mut Vec<Step>, budget: usize, step: Step) {
+    if log.len() >= budget {
+        panic!("{}", BUDGET_PANIC);
+    }
+    log.push(step);
+}
+
+/// One internal step of the framework.
+#[derive(Debug, Clone, PartialEq, Eq)]
+pub enum Step {
+    /// An event is delivered to a machine (also logged for machines that have
+    /// ended), with the machine's runtime state at the time of delivery.
+    Deliver {
+        machine: usize,
+        event: Event,
+        from_state: usize,
+        state_limit: u64,
+        counter_a: u64,
+        counter_b: u64,
+    },
+    /// The outcome of sampling the next state for the delivered event.
+    Sampled { machine: usize, next: Option<usize> },
+    /// The state limit set on creation or on entering a state from another.
+    Limit { machine: usize, limit: u64 },
+    /// The operand (unit, sampled or copied) used to update a counter.
+    CounterOperand {
+        machine: usize,
+        counter_b: bool,
+        value: u64,
+    },
+    /// The action of the entered state was put in the machine's action slot.
+    Scheduled { machine: usize },
+    /// The machine's action slot was emptied because its limit was reached.
+    Withdrawn { machine: usize },
+    /// The signal round at the end of a call starts.
+    SignalRound,
+}
+
+/// The runtime state of one machine.
+#[derive(Debug, Clone)]
+pub struct MachineSnapshot<T: crate::time::Instant> {
+    pub current_state: usize,
+    pub state_limit: u64,
+    pub padding_sent: u64,
+    pub normal_sent: u64,
+    pub blocking_duration: T::Duration,
+    pub counter_a: u64,
+    pub counter_b: u64,
+}
+
+/// The runtime state of the framework between calls.
+#[derive(Debug, Clone)]
+pub struct Snapshot<T: crate::time::Instant> {
+    pub machines: Vec<MachineSnapshot<T>>,
+    pub current_time: T,
+    pub normal_sent_packets: u64,
+    pub padding_sent_packets: u64,
+    pub blocking_duration: T::Duration,
+    pub blocking_started: T,
+    pub blocking_active: bool,
+    /// `None`: nothing pending; `Some(None)`: all machines; `Some(Some(m))`:
+    /// all machines except `m`.
+    pub signal_pending: Option<Option<usize>>,
+}
